@@ -24,7 +24,8 @@ RULE = ("cases: (a) every square matrix with entries in {0,+1,-1} for p<=3 (quic
         "real matrices p<=10 (cancelling columns, cycles with weight sum <= 0, opposite-signed 2-cycles, "
         "negative self-loops, DAG plus one back edge); (c) the same families through the LGANM, ANM and "
         "DRFNet constructors.  distinct = distinct matrix (dtype included); non-trivial = has a negative "
-        "entry or a directed cycle")
+        "entry or a directed cycle"
+        ' Also: each matrix is handed over in varying presentations (a re-used caller-owned buffer overwritten in place, Fortran order, strided view, read-only, other dtype, negative zeros), minute (1e-9..5e-324) and extreme (2^62, 1e307) weights, and pairs of different matrices with identical raw bytes asked one after the other.')
 ASSUMPTIONS = ["the reference cycle detector (DFS on python ints) is correct; it is cross-checked against an "
                "independent Kahn implementation on every case",
                "DRFNet is driven through a stand-in rpy2 backend (no R in the sandbox)"]
